@@ -172,6 +172,26 @@ func init() {
 		}
 		emitBool("smtp_auth_deactivation_deferred", deferred, "Client.Auth: a deferred function sets c.authIsActive = false")
 
+		// mail.Client.auth builds the mechanism for THIS dial (current user name, password, TLS state) and does not keep it:
+		// no assignment to c.smtpAuth inside auth()
+		keeps := true
+		if fn, ok := p.funcs["Client.auth"]; ok && fn.Body != nil {
+			keeps = false
+			ast.Inspect(fn.Body, func(x ast.Node) bool {
+				if as, ok := x.(*ast.AssignStmt); ok {
+					for _, l := range as.Lhs {
+						if p.src(l) == "c.smtpAuth" {
+							keeps = true
+						}
+					}
+				}
+				return true
+			})
+		} else {
+			untranslatable = append(untranslatable, "client_auth_keeps_mechanism")
+		}
+		emitBool("client_auth_keeps_mechanism", keeps, "mail.Client.auth assigns c.smtpAuth (a mechanism built on one dial would be reused on the next)")
+
 		// loginAuth.Start resets the step counter (C14: a reused Auth value behaves like a fresh one)
 		loginResets := false
 		if fn, ok := sp.funcs["loginAuth.Start"]; ok && fn.Body != nil {
@@ -244,6 +264,26 @@ func init() {
 				emit("(* UNTRANSLATABLE scram_nonce_check: the nonce test of handleServerFirstResponse is not a condition over len(a.nonce) == 0 and bytes.HasPrefix(combinedNonce, a.nonce) *)\nDefinition scram_nonce_check (nonce_nil has_prefix : bool) : bool := false.\n")
 			}
 		}
+
+		// every "return nil, <e>" of the two server-message handlers constructs its error (a call such as errors.New /
+		// fmt.Errorf), so that an error path cannot return (nil, nil), which Client.Auth takes for "exchange finished"
+		errsOK := true
+		for _, fnn := range []string{"scramAuth.handleServerFirstResponse", "scramAuth.handleServerValidationMessage"} {
+			fn, ok := sp.funcs[fnn]
+			if !ok || fn.Body == nil {
+				errsOK = false
+				continue
+			}
+			ast.Inspect(fn.Body, func(x ast.Node) bool {
+				if rs, ok := x.(*ast.ReturnStmt); ok && len(rs.Results) == 2 && sp.src(rs.Results[0]) == "nil" {
+					if _, isCall := rs.Results[1].(*ast.CallExpr); !isCall {
+						errsOK = false
+					}
+				}
+				return true
+			})
+		}
+		emitBool("scram_error_returns_constructed", errsOK, "handleServerFirstResponse / handleServerValidationMessage: every return nil, e has e = a call (errors.New, fmt.Errorf)")
 
 		finalReq := false
 		if fn, ok := sp.funcs["scramAuth.handleServerValidationMessage"]; ok && fn.Body != nil && len(fn.Body.List) > 0 {
